@@ -12,7 +12,7 @@
   mark.  `C04_never_again` puts the pieces together over whole traces.
 
   Which theorems are what: `C04_bound`, `C04_single` are inductive invariants of the slot table;
-  `C04_mark_stays`, `C04_fin_step`, `C04_never_again*` are proved over all accepted events /
+  `C04_mark_stays`, `C04_fin_step`, `C04_never_again*`, `C04_K_once`, `C04_K_frees`, `C04_exactly_once` are proved over all accepted events /
   traces (frame lemma over the 27 event kinds); `C04_no_retry`, `C04_marked_refused`, `C04_mark_sets`,
   `C04_restart_keeps`, `C04_reported_refused`, `C04_cleanRestart_keeps`, `C04_layer_refines` read back guards
   / definitions of the monitor (they are the building blocks and are tied to the code by trace replay).
@@ -507,6 +507,69 @@ theorem C04_never_again_after_mark (cfg : Cfg) (s s1 s2 : St2) (m : Nat) (c : Ch
   obtain ⟨idx', hi', hd⟩ := C04_markD_fin cfg s.base s1.base c m pos (C04_layer_refines cfg s s1 _ h)
   rw [hi] at hi'; cases hi'
   exact (C04_never_again cfg (m, c, idx) evs s1 s2 (Or.inr hd) ha hne).1
+
+/-- **At most once**: from a state in which record `x` is finished and has no attempt outstanding — e.g. right after its `K`
+report was read (`C04_single`: the report freed the only slot of `x`) — along any accepted event sequence without an excusing
+event for `x`: no delivery command for `x` is issued, no further `K` report for `x` is ever read (`delivered` keeps its count),
+and `x` stays finished.  Together with `C04_cleanRestart_keeps` (a clean stop happens only with no delivery in flight): without
+crashes and failing calls a recipient that succeeds is delivered exactly once. -/
+theorem C04_K_once (cfg : Cfg) (x : Nat × Ch × Nat) : ∀ (evs : List Ev2) (s s' : St2), Fin2 s x → inFl s.base x = false →
+    acceptAll2 cfg s evs = some s' → anyAlong cfg (fun t e => excuse t x e) s evs = false →
+    dcount s'.base x = dcount s.base x ∧ inFl s'.base x = false ∧ Fin2 s' x
+  | [], s, s', hf, hi, ha, _ => by
+    simp only [acceptAll2] at ha; cases ha
+    exact ⟨rfl, hi, hf⟩
+  | e :: es, s, s', hf, hi, ha, hne => by
+    simp only [acceptAll2] at ha
+    cases h1 : accept2 cfg s e with
+    | none => simp [h1] at ha
+    | some s1 =>
+      simp only [h1] at ha
+      simp only [anyAlong, h1, Bool.or_eq_false_iff] at hne
+      have hnc : cmdFor s x e = false := by
+        cases hcf : cmdFor s x e with
+        | false => rfl
+        | true => rw [C04_fin_refuses cfg s x hf e hcf] at h1; cases h1
+      have hst := once_step cfg s s1 e h1 x hi hnc hne.1
+      rcases C04_fin_step cfg s s1 e h1 x hf with hf1 | hex
+      · have ih := C04_K_once cfg x es s1 s' hf1 hst.1 ha hne.2
+        exact ⟨by rw [ih.1, hst.2], ih.2⟩
+      · rw [hne.1] at hex; cases hex
+
+/-- **After its `K` report a record has no attempt outstanding** (the report freed the slot, and by `C04_single` there was no
+other): the hypothesis of `C04_K_once` holds right after the read -/
+theorem C04_K_frees (cfg : Cfg) (s s1 : St2) (hr : Reach cfg s.base) (c : Ch) (bs : Bytes) (m : Nat) (c' : Ch) (i : Nat)
+    (h : accept2 cfg s (.ev (.rbytes c bs)) = some s1)
+    (hd : (c', i) ∈ (s1.base.msg m).delivered) (hnd : (c', i) ∉ (s.base.msg m).delivered) :
+    inFl s1.base (m, c', i) = false := by
+  obtain ⟨sb, so⟩ := s1
+  have hb : accept cfg s.base (.rbytes c bs) = some sb := C04_layer_refines cfg s _ _ h
+  show inFl sb (m, c', i) = false
+  simp only [accept] at hb
+  split at hb
+  · cases hb
+  · cases hb
+    have hu := (reach_slots cfg s.base hr).recUnique
+    have h0 : dcount s.base (m, c', i) = 0 := by
+      simp only [dcount]; exact List.count_eq_zero.2 hnd
+    refine feedReports_newK cfg c (m, c', i) 0 bs { s.base with mayMark := [], notes := [] } hu ?_ ?_
+    · intro hh
+      have : dcount { s.base with mayMark := [], notes := [] } (m, c', i) = dcount s.base (m, c', i) := rfl
+      rw [this, h0] at hh; exact absurd hh (Nat.lt_irrefl _)
+    · exact List.count_pos_iff.2 hd
+
+/-- **Exactly once without crashes**: a record whose `K` report is read in a reachable state is, along ANY accepted continuation
+without an excusing event for it (no crash, no failing `markdone` of it, …; clean stops and restarts allowed), never commanded
+again and never reported `K` again. -/
+theorem C04_exactly_once (cfg : Cfg) (s s1 s2 : St2) (hr : Reach cfg s.base) (c : Ch) (bs : Bytes) (m : Nat) (c' : Ch) (i : Nat)
+    (evs : List Ev2) (h : accept2 cfg s (.ev (.rbytes c bs)) = some s1)
+    (hd : (c', i) ∈ (s1.base.msg m).delivered) (hnd : (c', i) ∉ (s.base.msg m).delivered)
+    (ha : acceptAll2 cfg s1 evs = some s2) (hne : anyAlong cfg (fun t e => excuse t (m, c', i) e) s1 evs = false) :
+    anyAlong cfg (fun t e => cmdFor t (m, c', i) e) s1 evs = false ∧
+    dcount s2.base (m, c', i) = dcount s1.base (m, c', i) := by
+  have hf : Fin2 s1 (m, c', i) := Or.inl ((C04_K_owed cfg s s1 c bs h m c' i hd).resolve_left hnd)
+  exact ⟨(C04_never_again cfg (m, c', i) evs s1 s2 hf ha hne).1,
+    (C04_K_once cfg (m, c', i) evs s1 s2 hf (C04_K_frees cfg s s1 hr c bs m c' i h hd hnd) ha hne).1⟩
 
 /-! ### Non-vacuity -/
 
